@@ -193,6 +193,7 @@ type RunOpt struct {
 	Extra    []string
 	Env      []string
 	Strace   string // when set: path of an strace log to produce
+	Inject   string // when set: strace fault injection, e.g. "unlink,unlinkat:error=EPERM" (every such call of the child fails)
 }
 
 type Event struct {
@@ -295,6 +296,11 @@ func (p *Program) RunChild(o RunOpt) *RunResult {
 	if o.Strace != "" {
 		name = "strace"
 		full = append([]string{"-f", "-qq", "-e", "trace=openat,unlink,unlinkat,rename,renameat,renameat2,ftruncate,truncate,mkdir,mkdirat,rmdir", "-o", o.Strace, bin}, args...)
+	}
+	if o.Inject != "" && o.Strace == "" {
+		calls := o.Inject[:strings.IndexByte(o.Inject, ':')]
+		name = "strace"
+		full = append([]string{"-f", "-qq", "-e", "trace=" + calls, "-e", "inject=" + o.Inject, "-o", "/dev/null", bin}, args...)
 	}
 	cmd := exec.Command("timeout", append([]string{"-s", "QUIT", "120", name}, full...)...)
 	cmd.Dir = o.Cwd
